@@ -108,7 +108,28 @@ Inductive value :=
 | VJ (j : json)     (* a JSON value *)
 | VUnres            (* the UNRESOLVABLE sentinel *)
 | VNotSet           (* the NOT_SET sentinel (a case without body) *)
-| VOpaque.          (* a Python value outside the modelled fragment (repr of containers, floats) *)
+| VOpaque           (* a Python value outside the modelled fragment (repr of containers) *)
+| VFloat (r : str). (* a Python float held by a request parameter container, identified by its repr (= str = json.dumps for a
+                       finite float); Common.Json has no floats, so documents (bodies) cannot hold one *)
+
+(* what a parameter container of the source request (case.query / path_parameters / headers) may hold under a name *)
+Inductive pval :=
+| PJ (j : json)
+| PFloat (r : str).
+Definition value_of_pval (p : pval) : value := match p with PJ j => VJ j | PFloat r => VFloat r end.
+
+(* Python truthiness: bool(x) is False.  The evaluation of the UNCHANGED code never looks at it for a value read without
+   extractor; it is here to state that falsy values are values like any other *)
+Definition py_falsy (p : pval) : bool :=
+  match p with
+  | PJ JNull => true
+  | PJ (JBool b) => negb b
+  | PJ (JInt z) => Z.eqb z 0
+  | PJ (JStr s) => match s with [] => true | _ => false end
+  | PJ (JArr l) => match l with [] => true | _ => false end
+  | PJ (JObj l) => match l with [] => true | _ => false end
+  | PFloat r => str_eqb r [48;46;48] || str_eqb r [45;48;46;48]      (* 0.0 and -0.0 *)
+  end.
 
 (* list.__getitem__ with an int *)
 Definition py_index (l : list json) (i : Z) : option json :=
@@ -427,9 +448,10 @@ Record ctx := {
   c_url : str;                         (* requests.Request(..).prepare().url : foreign *)
   c_method : str;                      (* operation.method *)
   c_status : Z;                        (* response.status_code *)
-  c_query : option (list (str * json));
-  c_path : option (list (str * json));
-  c_headers : option (list (str * json));
+  c_query : option (list (str * pval));     (* None = the container itself is None; a name may be absent, or present with
+                                               ANY value: null, falsy (0, 0.0, empty string, false, [], {}) or truthy *)
+  c_path : option (list (str * pval));
+  c_headers : option (list (str * pval));
   c_body : value;                      (* case.body: VJ or VNotSet *)
   r_headers : list (str * list str);   (* response.headers: lower-cased name -> values *)
   r_body : option json                 (* response.json(); None = it raises *)
@@ -462,7 +484,7 @@ Definition Z_str (z : Z) : str :=
   end.
 
 (* last binding whose lower-cased key equals the lower-cased name: CaseInsensitiveDict(container).get *)
-Fixpoint ci_get (k : str) (l : list (str * json)) (found : option json) : option json :=
+Fixpoint ci_get {A} (k : str) (l : list (str * A)) (found : option A) : option A :=
   match l with
   | [] => found
   | (k', v) :: r => ci_get k r (if str_eqb (lower_ascii k') (lower_ascii k) then Some v else found)
@@ -502,8 +524,9 @@ Section Eval.
         let container := match container with Some d => d | None => [] end in
         let found := if str_eqb loc s_header then ci_get param container None else assoc_get param container in
         match found with
-        | None | Some JNull => OVal VUnres
-        | Some v => apply_extractor ex v
+        | None | Some (PJ JNull) => OVal VUnres                 (* if value is None: return UNRESOLVABLE - absent, or null *)
+        | Some (PJ v) => apply_extractor ex v                   (* every other value, falsy or not, is returned as it is *)
+        | Some (PFloat r) => match ex with None => OVal (VFloat r) | Some _ => ORaise end   (* re.search on a float: TypeError *)
         end
     | NReqBody None => OVal (c_body cx)
     | NReqBody (Some p) =>
@@ -533,6 +556,7 @@ Section Eval.
     | VJ (JBool true) => Some [84;114;117;101]
     | VJ (JBool false) => Some [70;97;108;115;101]
     | VJ JNull => Some []          (* skipped by the join *)
+    | VFloat r => Some r
     | _ => None
     end.
 
@@ -589,6 +613,7 @@ Section Eval.
     | OVal (VJ (JInt z)) => OVal (VJ (JStr (Z_str z)))
     | OVal (VJ JNull) => OVal (VJ (JStr [110;117;108;108]))
     | OVal (VJ _) => OVal VOpaque        (* json.dumps of a container *)
+    | OVal (VFloat r) => OVal (VJ (JStr r))    (* str(float) *)
     | OVal VUnres => o
     | OVal VNotSet => ORaise             (* json.dumps(NOT_SET): TypeError *)
     | other => other
@@ -961,21 +986,25 @@ Section Denote.
         end
     end.
 
+  (* the value the source request carries for a parameter: None = the request has no such parameter.  Header names are
+     case-insensitive (the last spelling wins, as in CaseInsensitiveDict(dict)) *)
+  Definition source_param (l : ploc) (name : str) : option pval :=
+    match l with
+    | LQuery => assoc_get name (match c_query cx with Some d => d | None => [] end)
+    | LPath => assoc_get name (match c_path cx with Some d => d | None => [] end)
+    | LHeader => ci_get name (match c_headers cx with Some d => d | None => [] end) None
+    end.
+
   Definition denote (e : rexpr) : outcome :=
     match e with
     | RUrl => OVal (VJ (JStr (c_url cx)))
     | RMethod => OVal (VJ (JStr (upper_ascii (c_method cx))))
     | RStatus => OVal (VJ (JStr (Z_str (c_status cx))))
     | RReq l name rx =>
-        let found :=
-          match l with
-          | LQuery => assoc_get name (match c_query cx with Some d => d | None => [] end)
-          | LPath => assoc_get name (match c_path cx with Some d => d | None => [] end)
-          | LHeader => ci_get name (match c_headers cx with Some d => d | None => [] end) None
-          end in
-        match found with
-        | None | Some JNull => OVal VUnres
-        | Some v => denote_extract rx v
+        match source_param l name with
+        | None | Some (PJ JNull) => OVal VUnres       (* absent, or null: nothing to pass *)
+        | Some (PJ v) => denote_extract rx v          (* present: THAT value, whatever its truthiness *)
+        | Some (PFloat r) => match rx with None => OVal (VFloat r) | Some _ => ORaise end
         end
     | RReqBody p =>
         match c_body cx with
